@@ -3,30 +3,39 @@ from vdriver import Job
 ID = "C17"
 LEVEL = "other"
 MAIN = "c17"
-MODULES = ["geom", "pos", "stubs", "c17"]
+MODULES = ["geom", "pos", "stubs", "step", "c02", "c17"]
 ACCESS = None
 DUMP = []
-PARALLEL = 4
+PARALLEL = 16
 
 META = {
     "functions_encoded": ["chess::moves::MoveListExt::expect_matching", "engine::uci::UciMove::from(Move)", "chess::moves::Move::{src, dst, promotion, flags}",
-                          "engine::uci::parser::{uci_move, uci_square, uci_promotion} (nom combinators as compiled)"],
-    "stubs": [],
-    "bounds": ["move lists of up to 5 arbitrary moves", "single-move text: ALL 7-bit ASCII strings of length 4 and of length 5"],
-    "outside": ["'the position after the command is the one reached by playing the moves': that is C01 + C02 applied move by move; parsing of whole "
-                "'position ... moves ...' command lines (nom over long strings, Vec, String) and games of arbitrary length are not encodable within reach",
+                          "engine::uci::parser::{uci_move, uci_square, uci_promotion} (nom combinators as compiled)",
+                          "engine::uci::Uci::execute (UciCommand::Position branch: the real handler loop, expect_matching, Game::make_move)"],
+    "stubs": ["position_cmd harnesses only: Game::from_fen -> contract stub returning the arbitrary valid game (reading FEN text is C06's subject, string code); "
+              "Game::moves -> contract stub (C01: exactly the legal moves): a 3-element list holding the oracle-legal move at an arbitrary index among two arbitrary "
+              "other moves with a different (source, destination, promotion); std::intrinsics::catch_unwind -> runs the closure (Kani 0.68 cannot compile this intrinsic; "
+              "only the go branch's JoinHandle drop glue reaches it); zobrist toggles / accumulator updates -> no-ops as in C02 (key content is C03/C15)",
+              "native replay of a position_cmd counterexample uses NO stub: the real FEN reader and the real generator run on the FEN text of the counterexample position"],
+    "bounds": ["move lists of up to 5 arbitrary moves", "single-move text: ALL 7-bit ASCII strings of length 4 and of length 5",
+               "position command: ONE move after the FEN, from ANY valid position (no piece-count bound), split by moving kind x side; longer move lists follow by "
+               "induction over the handler's loop only if the loop treats every element alike (not checked beyond one iteration)"],
+    "outside": ["parsing of whole 'position ... moves ...' command lines (nom over long strings, Vec, String) and reading the FEN text (C06, string code) "
+                "are not encodable within reach; move lists longer than one move; the 'd move' debug command",
                 "UciMove::notation (format!/String)"],
     "assumptions": ["only the twelve flag patterns defined in moves.rs occur as moves"],
     "trusted_base": ["kani 0.68.0", "cbmc 6.11.0", "cadical"],
-    "explanation": "Kernel-level claim on text <-> move mapping.",
+    "explanation": "Kernel-level claim on text <-> move mapping plus one inductive step of the real position-command handler.",
 }
 MANIFEST = {
     "text": "Partial (kernel-level) claim, hence 'other': the solver shows (1) expect_matching returns an element of the list with exactly the requested source, "
             "destination and promotion whenever one exists (lists of up to 5 arbitrary moves); (2) Move -> UciMove preserves source, destination and promotion for "
             "every move encoding; (3) the single-move parser accepts exactly [a-h][1-8][a-h][1-8][nbrq]? in lower case, with the right squares and promotion piece, "
-            "over ALL ASCII strings of length 4 and 5. That the position after a whole 'position ... moves ...' command equals the played game rests on C01+C02 and "
-            "is NOT claimed at the command level.",
-    "note": "Command-line parsing of whole position commands and long games outside the claim; output formatting (format!) outside.",
+            "over ALL ASCII strings of length 4 and 5; (4) the real `position` handler (Uci::execute) applied to 'fen <any valid position> moves <m>' for any "
+            "legal m (split by moving kind x side) ends in exactly the game the rules prescribe - placement, side, rights, en-passant target, clocks, history "
+            "length, all three board views - with the FEN reader and the generator replaced by contract stubs (their content is C06 / C01). Whole command "
+            "lines as text and move lists longer than one move are NOT claimed.",
+    "note": "Command-line text parsing, FEN text reading and move lists longer than one move outside the claim; output formatting (format!) outside.",
     "design_ref": "DESIGN.md s.4 C17",
 }
 
@@ -34,6 +43,26 @@ MANIFEST = {
 def inst(n):
     name = f"c17_uci_move_text_len{n}"
     return name, f"#[kani::proof]\n#[kani::unwind(12)]\npub fn {name}() {{ c17::uci_move_text({n}); }}\n"
+
+
+STUBS = [
+    ("crate::chess::game::Game::from_fen", "c17::stub_from_fen"),
+    ("crate::chess::game::Game::moves", "c17::stub_moves"),
+    ("std::intrinsics::catch_unwind", "c17::stub_catch_unwind"),
+    ("crate::chess::zobrist::ZobristHash::toggle_piece_on_square", "c02::nop_toggle_piece"),
+    ("crate::chess::zobrist::ZobristHash::toggle_castle_rights", "c02::nop_toggle_castle"),
+    ("crate::chess::zobrist::ZobristHash::set_en_passant", "c02::nop_set_ep"),
+    ("crate::chess::zobrist::ZobristHash::toggle_side_to_play", "c02::nop_toggle_side"),
+    ("crate::engine::eval::IncrementalEvalFields::set_at", "c02::nop_eval_set"),
+    ("crate::engine::eval::IncrementalEvalFields::remove_at", "c02::nop_eval_remove"),
+]
+KINDS = ["pawn", "knight", "bishop", "rook", "queen", "king"]
+
+
+def inst_cmd(kind, side):
+    name = f"c17_position_cmd_{KINDS[kind]}_{'wb'[side]}"
+    attrs = ["#[kani::proof]"] + [f"#[kani::stub({a}, {b})]" for a, b in STUBS]
+    return name, "\n".join(attrs) + f"\npub fn {name}() {{ c17::position_cmd({kind}, {side}); }}\n"
 
 
 def jobs(tier, seed):
@@ -44,6 +73,12 @@ def jobs(tier, seed):
     for n in (4, 5):
         name, src = inst(n)
         js.append(Job(name, f"uci_move parser on all ASCII strings of length {n}", gen=src, timeout=1800, mem_gb=16, witness=False, params={"len": n}))
+    for kind in range(6):
+        for side in (0, 1):
+            name, src = inst_cmd(kind, side)
+            js.append(Job(name, f"Uci::execute(position fen <any valid position> moves <m>), m = any legal {KINDS[kind]} move, {'white' if side == 0 else 'black'} to move",
+                          gen=src, timeout=2400, mem_gb=16, weight_gb=2.0, checks="functional", witness=False,
+                          params={"moving_kind": KINDS[kind], "white_to_move": side == 0}))
     return js
 
 
